@@ -253,9 +253,10 @@ def _plain_names(draw, head, data):
 
 @st.composite
 def tolas_files(draw, max_files=2, max_frame_types=3, max_channels=5, max_frames=24, codes=L.FRAME_CODES, parameter=True,
-                allow_no_log_pass=True):
+                allow_no_log_pass=True, plant=()):
     """Storage unit of 1..max_files logical files, each with a log pass of 1..max_frame_types frame types (one file in eight
-    without a log pass when allow_no_log_pass)."""
+    without a log pass when allow_no_log_pass).  plant: identifiers (index channels of *another* file, C12) one of which a plain
+    channel of the first logical file takes."""
     n = 1 if max_files <= 1 or draw(L.ints(0, 2)) else draw(L.ints(2, max_files))
     records = []
     any_lp = False
@@ -265,17 +266,19 @@ def tolas_files(draw, max_files=2, max_frame_types=3, max_channels=5, max_frames
         recs = _one_logical_file(draw, i + 1, 0 if nolp else max_frame_types, max_channels, max_frames, codes, parameter)
         if records and draw(L.ints(0, 2)) == 0:
             _share_index_name(draw, records, recs)
+        if not records and plant:
+            _share_index_name(draw, [], recs, [bytes(x) for x in plant])
         records += recs
     return L._finish_case(draw, records)
 
 
-def _share_index_name(draw, earlier, recs):
+def _share_index_name(draw, earlier, recs, x_names=None):
     """One channel of the logical file ``recs`` that is not the index of its frame gets the identifier of an index channel of an
     earlier logical file (identifiers are unique within a logical file only): DEPT is the index of one log and a plain channel of
     the next."""
     def sets(rs, t):
         return [r['set'] for r in rs if r['kind'] == 'set' and r['set']['type'] == t]
-    x_names = []
+    x_names = list(x_names or [])
     for fs in sets(earlier, b'FRAME'):
         k = [t['label'] for t in fs['template']].index(b'CHANNELS')
         x_names += [bytes(fo['attrs'][k]['values'][0][2]) for fo in fs['objects']]
